@@ -7,7 +7,7 @@ C29 driver.  One line per case:
   <coll> <algo> <np> <root> <count> <type> <op> <nb> => <rank 0 tokens> | <rank 1 tokens> | …
 The driver rebuilds the pattern-filled send buffers (same closed formulas as props/C29/harness.c), evaluates the
 SPEC of the collective (Model.lean) and compares every rank's receive buffer.  A wrong buffer is a violation of the
-property itself (MONFAIL).  For the four algorithms whose schedule is modelled, the schedule model is evaluated too
+property itself (MONFAIL).  For the algorithms whose schedule is modelled (`hasSchedule`), the schedule model is evaluated too
 and must agree with the implementation (DISAGREE otherwise: the schedule model no longer mirrors the code).
 -/
 namespace SgVerif.C29
@@ -128,13 +128,17 @@ def expected {α : Type} (D : Dom α) (coll : String) (np root c m : Nat) : Opti
     reduceScatter D.op (ranks.map fun _ => C) (ranks.map fun r => pat D r (np * C))
   | _ => none
 
-/-- schedule models (only for the four modelled algorithms); result in the same shape as the spec -/
+/-- schedule models (only for the modelled algorithms); result in the same shape as the spec -/
 def schedule {α : Type} (D : Dom α) (coll algo : String) (np root c m : Nat) : Option (Res α) :=
   let C := c * m
   let ranks := List.range np
   match coll, algo with
-  | "bcast", "binomial_tree" =>
+  | "bcast", "binomial_tree" | "bcast", "default" =>      -- bcast__default calls bcast__binomial_tree
     if root < np then some (bcastBinomial np root (pat D root C)) else none
+  | "reduce", "flat_tree" =>
+    if root < np then some (onlyAt np root (reduceFlatTree (zipOp D.op) (fun r => pat D r C) np)) else none
+  | "reduce", "binomial" =>       -- every operator of the grid is created commutative (harness.c: MPI_Op_create(…, 1, …))
+    if root < np then some (onlyAt np root (reduceBinomial (zipOp D.op) true (fun r => pat D r C) np root)) else none
   | "allreduce", "rdb" =>
     if np = 0 then none else
     let x := fun r => pat D r C
@@ -142,13 +146,29 @@ def schedule {α : Type} (D : Dom α) (coll algo : String) (np root c m : Nat) :
   | "allgather", "ring" =>
     let bufs := ranks.map fun r => pat D r C
     some (ranks.map fun r => (allSome (allgatherRing bufs r)).map List.flatten)
+  | "allgather", "bruck" =>
+    some (ranks.map fun r => (allSome (allgatherBruck (fun q => pat D q C) np r)).map List.flatten)
+  | "allreduce", "lr" =>          -- only for counts that are a positive multiple of np (see `hasSchedule`)
+    if np = 0 then none else
+    let blk := C / np
+    let blocks := ranks.map fun r => chunks blk np (pat D r C)
+    let x := fun r b => (blocks.getD r []).getD b []
+    some (ranks.map fun r => (allSome (ranks.map (allreduceLr (zipOp D.op) x np r))).map List.flatten)
+  | "alltoall", "ring" =>
+    let blocks := ranks.map fun r => chunks C np (pat D r (np * C))
+    some (ranks.map fun r => (allSome (alltoallRing blocks r)).map List.flatten)
   | "alltoall", "pair" =>
     let blocks := ranks.map fun r => chunks C np (pat D r (np * C))
     allSome (ranks.map fun r => (alltoallPair blocks r).map fun slots => (allSome slots).map List.flatten)
   | _, _ => none
 
-def hasSchedule (coll algo : String) : Bool :=
-  (coll, algo) ∈ [("bcast", "binomial_tree"), ("allreduce", "rdb"), ("allgather", "ring"), ("alltoall", "pair")]
+/-- is the schedule model of this (collective, algorithm) applicable to the case?  (`nb` = the non-blocking `MPI_I…`
+variant, which never runs the selected algorithm) -/
+def hasSchedule (coll algo : String) (nb : Bool) (np c : Nat) : Bool :=
+  !nb && ((coll, algo) ∈ [("bcast", "binomial_tree"), ("bcast", "default"), ("allreduce", "rdb"), ("allgather", "ring"),
+    ("allgather", "bruck"), ("alltoall", "pair"), ("alltoall", "ring"), ("reduce", "flat_tree"), ("reduce", "binomial")] ||
+    -- allreduce-lr.cpp hands counts < np and the remainder of counts that np does not divide to other algorithms
+    ((coll, algo) == ("allreduce", "lr") && np != 0 && c >= np && c % np == 0))
 
 def firstDiff : Nat → List (List String) → List (List String) → Option (Nat × List String × List String)
   | _, [], [] => none
@@ -156,7 +176,8 @@ def firstDiff : Nat → List (List String) → List (List String) → Option (Na
   | r, e :: _, [] => some (r, e, ["<missing>"])
   | r, [], i :: _ => some (r, ["<none>"], i)
 
-def judgeWith {α : Type} (D : Dom α) (coll algo : String) (np root c m : Nat) (impl : List (List String)) : Verdict :=
+def judgeWith {α : Type} (D : Dom α) (coll algo : String) (nb : Bool) (np root c m : Nat) (impl : List (List String)) :
+    Verdict :=
   match expected D coll np root c m with
   | none => .bad
   | some res =>
@@ -165,7 +186,7 @@ def judgeWith {α : Type} (D : Dom α) (coll algo : String) (np root c m : Nat) 
     | some (r, e, i) =>
       .monfail s!"rank {r}: receive buffer differs from the MPI result: expected [{" ".intercalate (e.take 24)}] got [{" ".intercalate (i.take 24)}]"
     | none =>
-      if hasSchedule coll algo then
+      if hasSchedule coll algo nb np c then
         match schedule D coll algo np root c m with
         | none => .disagree "schedule-model-refuses"
         | some sres => if sres.map (renderRank D) = impl then .ok else .disagree "schedule-model-differs"
@@ -197,7 +218,7 @@ def judge (q a : List String) : Verdict :=
     | some l => cmpAns l a
     | none => .disagree "collective-not-in-translated-table"
   | ["algocount"] => cmpAns [toString Gen.algos.length] a
-  | [coll, algo, np, root, c, ty, op, _nb] =>
+  | [coll, algo, np, root, c, ty, op, nb] =>
     match np.toNat?, root.toNat?, c.toNat? with
     | some np, some root, some c =>
       let impl := splitBar a
@@ -206,9 +227,10 @@ def judge (q a : List String) : Verdict :=
       else
       if (Gen.algos.any fun (cl, l) => cl = coll ∧ ¬ l.contains algo) ∧ algo ≠ "default" then .bad else
       let m := if ty = "vec" then 2 else 1
-      if op = "maxloc" then judgeWith domLoc coll algo np root c m impl
+      let nb := nb != "0"
+      if op = "maxloc" then judgeWith domLoc coll algo nb np root c m impl
       else match OpK.ofString op with
-        | some k => judgeWith (domInt k (ty = "vec")) coll algo np root c m impl
+        | some k => judgeWith (domInt k (ty = "vec")) coll algo nb np root c m impl
         | none => .bad
     | _, _, _ => .bad
   | _ => .bad
